@@ -2154,6 +2154,9 @@ func (s *SubscriptionSource) HashTriggerInput(input []byte, xxh *xxhash.Digest) 
 
 // Start the subscription. The updater is called on new events. Start needs to be called in a separate goroutine.
 func (s *SubscriptionSource) Start(ctx *resolve.Context, headers http.Header, input []byte, updater resolve.SubscriptionUpdater) error {
+	// like Source.Load: a variable which the client left out was rendered as null and is listed in "undefined",
+	// it must not reach the subgraph as an explicit null
+	input = (&Source{}).compactAndUnNullVariables(input)
 	var options GraphQLSubscriptionOptions
 	err := json.Unmarshal(input, &options)
 	if err != nil {
